@@ -313,6 +313,13 @@ func runOneSimStream(c simStreamCase) (fails []monFail, info string) {
 			}
 		}
 		elapsed = time.Since(start)
+		if os.Getenv("VERIF_SIMDEBUG") != "" {
+			e.Router.mu.Lock()
+			for _, d := range e.Router.log {
+				fmt.Fprintf(os.Stderr, "DG %8.3fms dir=%d #%d len=%d %s\n", float64(d.Time)/1e6, d.Dir, d.Idx, len(d.Data), d.Act)
+			}
+			e.Router.mu.Unlock()
+		}
 		// let outstanding datagrams arrive
 		time.Sleep(500 * time.Millisecond)
 		mu.Lock()
